@@ -6,6 +6,7 @@ EXPLANATION = (
     "position within [start, end]; read truncates to end-current; the chunker's chunks start at 0, end right after a full line and are "
     "contiguous up to the file size; the indexer's bisection handles every probe outcome (in range: record and search both sides; at or beyond the bound: narrow to (prev, mid]); the parallel source reads [index[i].offset, index[i+1].offset | EOF) under index[i].name; the index "
     "detects a chromosome occurring in two runs by sorting a copy by name.")
+EXPLANATION += " Since the rules were generalised: each SeekFrom arm of FileView::seek is decided to hand the file exactly the isolated range's position clamped to [start, end] (expression equivalence on a small domain) and never to call itself; read truncates to min(len, end-current); the chunker's loop body is executed symbolically (seek candidate, read a line, position P, push (start, P), next start = P, candidate within [P, size], exit iff P >= size); the view bounds and the parallel refusal are evaluated."
 UNDECIDED = ("the bisection's exactness is argued, not enumerated: C18-I1 decides the case analysis the argument rests on (every probe outcome handled, interval arithmetic, "
              "unconditional recording, skip conditions) and the grouped-file assumption (a run is contiguous) is the caller's; behaviour on ungrouped files beyond the final name check is not decided.")
 ASSUMPTIONS = [K.A_PRED, "u64/i64 casts do not overflow for file offsets"]
